@@ -191,7 +191,13 @@ impl Archive {
     /// Return the last completely-written band id, if any.
     pub async fn last_complete_band(&self) -> Result<Option<Band>> {
         for band_id in self.list_band_ids().await?.into_iter().rev() {
-            let b = Band::open(self, band_id).await?;
+            let b = match Band::open(self, band_id).await {
+                Ok(b) => b,
+                // A band directory with no head is left by a backup that was interrupted
+                // before it wrote anything: it is not complete, so keep looking further back.
+                Err(Error::BandHeadMissing { .. }) => continue,
+                Err(err) => return Err(err),
+            };
             if b.is_closed().await? {
                 return Ok(Some(b));
             }
